@@ -864,7 +864,8 @@ func (u *Unmarshaler) processNamedField(field reflect.StructField, value reflect
 	if u.opts.fromArray {
 		// the field may be a pointer to a slice
 		fieldKind := Deref(field.Type).Kind()
-		if fieldKind != reflect.Slice && fieldKind != reflect.Array {
+		// a nil value has no type, it's handled in processNamedFieldWithValue
+		if mapValue != nil && fieldKind != reflect.Slice && fieldKind != reflect.Array {
 			valueKind := reflect.TypeOf(mapValue).Kind()
 			if valueKind == reflect.Slice || valueKind == reflect.Array {
 				val := reflect.ValueOf(mapValue)
